@@ -30,6 +30,11 @@ def incremental(pid, tier, replay):
                       invariants=["NoStale", "Minimal", "SecondIsNoop"], timeout=70 if q else 2400, ngraphs=6 if q else None)
     # the same monitors on the real binary and the real file system (RealDiskInterface: stat, mkdir, unlink, real mtimes)
     h2 = dict(fams=[dict(fam="inc", K=2 if q else 10, CH=3 if q else 6), dict(fam="restat", K=2 if q else 20, CH=2 if q else 4)], limit=90 if q else 1500, maxruns=2)
+    if pid == "C02":
+        # logs padded past their recompaction thresholds: NinjaMain::IsPathDead / DepsLog::IsDepsEntryLiveFor decide what survives
+        fams = fams + [dict(fam="logs", K=2 if q else 10, CH=2 if q else 6)]
+        h2["fams"] = h2["fams"] + [dict(fam="logs", K=1 if q else 6, CH=1 if q else 4, keep=True)]
+        h2["limit"] = 120 if q else 2000
     return engine.engine_check(pid, fams, tier, maxruns=16 if tier == "quick" else 64, design=design, impl=(pid == "C01"), h2=h2)
 
 
@@ -633,7 +638,8 @@ def dryrun(pid, tier, replay):
         return engine.engine_replay(pid, replay)
     fams = _fams([dict(fam="dry", K=4, CH=4)], [dict(fam="dry", K=40, CH=12)], tier)
     # the read-only tools exist in the real binary only: family `tools` runs there (H2)
-    h2 = dict(fams=[dict(fam="tools", K=2, CH=2)] if tier == "quick" else [dict(fam="tools", K=12, CH=6)], limit=90 if tier == "quick" else 1500, maxruns=1)
+    h2 = dict(fams=[dict(fam="tools", K=2, CH=2), dict(fam="toolslogs", K=1, CH=1, keep=True)] if tier == "quick" else [dict(fam="tools", K=12, CH=6), dict(fam="toolslogs", K=6, CH=1, keep=True)],
+              limit=110 if tier == "quick" else 1500, maxruns=1)
     return engine.engine_check(pid, fams, tier, maxruns=8 if tier == "quick" else 32, props=["C19"], h2=h2)
 
 
